@@ -241,7 +241,10 @@ def make_resource(stack, hooks, inherit=False):
     for kind, level, k in reversed(decos):
         fn = _hook_fns(stack, kind, level, k)
         on_get = (falcon.before if kind == 'before' else falcon.after)(fn)(on_get)
-    if inherit:
+    if inherit == 'suffix':
+        # a suffixed responder whose suffix has a capital and a digit (route added with suffix='V2x')
+        cls = type('Res', (), {'on_get_V2x': on_get})
+    elif inherit:
         base = type('ResBase', (), {'on_get': on_get})
         cls = type('Res', (base,), {})
     else:
@@ -304,8 +307,11 @@ def build(cfg):
         for c in comps:
             app.add_middleware(c)
     app.add_error_handler(AppError, _handler_sync if stack == 'wsgi' else _handler_async)
-    b.resource = make_resource(stack, tuple(cfg['hooks']), bool(cfg.get('inherit')))
-    app.add_route('/r/{%s}' % b.pname, b.resource)
+    b.resource = make_resource(stack, tuple(cfg['hooks']), cfg.get('inherit') or False)
+    if cfg.get('inherit') == 'suffix':
+        app.add_route('/r/{%s}' % b.pname, b.resource, suffix='V2x')
+    else:
+        app.add_route('/r/{%s}' % b.pname, b.resource)
     app.add_sink(_sink_sync if stack == 'wsgi' else _sink_async, '/s/(?P<%s>[a-z]+)' % b.sname)
     b.app = app
     b.cfg = cfg
@@ -445,7 +451,7 @@ def names_of(b):
 
 def cfg_key(cfg):
     return (cfg['stack'], tuple(tuple(ms) for ms in cfg['shape']), cfg['indep'], cfg['target'], cfg['reg'],
-            cfg['flavour'], tuple(cfg['hooks']), bool(cfg.get('inherit')))
+            cfg['flavour'], tuple(cfg['hooks']), cfg.get('inherit') or False)
 
 
 def ev_kind(ev):
@@ -805,6 +811,9 @@ def gen_configs(tier, seed):
                             # class-level hooks on a class whose responder is inherited from a base class
                             out.append(({'stack': stack, 'shape': shape, 'indep': indep, 'target': 'routed', 'reg': 'ctor',
                                          'flavour': 'plain', 'hooks': hooks, 'seed': seed, 'inherit': True}, 2))
+                            # ... and on a class whose responder carries a route suffix
+                            out.append(({'stack': stack, 'shape': shape, 'indep': indep, 'target': 'routed', 'reg': 'ctor',
+                                         'flavour': 'plain', 'hooks': hooks, 'seed': seed, 'inherit': 'suffix'}, 2))
     return out
 
 
